@@ -213,7 +213,7 @@ int main(int argc, char **argv)
     CaseSet ss;
     ss.name = "symbolic-grid";
     ss.n = (long long)sg.size() * arounds.size() * SORD;
-    ss.counter_names = {"symbolic_weight_vectors", "symbolic_conditions", "decided_by_expand", "expand_left_residue_numeric_ok"};
+    ss.counter_names = {"symbolic_weight_vectors", "symbolic_conditions", "decided_by_expand", "expand_left_residue_numeric_ok", "decided_by_second_expand"};
     auto sdesc = [&](long long i) {
         int md = i % SORD;
         int a = (i / SORD) % arounds.size();
@@ -271,6 +271,13 @@ int main(int argc, char **argv)
                 if (eq(*res, *zero)) {
                     c.count(2);
                     c.outcome("expand-zero,k=" + std::to_string(k) + ",j=" + std::to_string(j));
+                    continue;
+                }
+                // expand() may return an Add whose like terms are not merged ((1/2)/h + (-1/2)*h**(-1)): a second pass merges them
+                res = expand(res);
+                if (eq(*res, *zero)) {
+                    c.count(4);
+                    c.outcome("second-expand-zero");
                     continue;
                 }
                 RCP<const Basic> r2 = expand(res->subs(num));
